@@ -15,7 +15,7 @@ change the value inside the lock and `Broadcast` **after releasing it**, and wai
 | `waitBelow t` | `WaitIsBelow(t)`, `WaitIsZero` (t = 1) | `WaitSizeIsBelow(t)`, `WaitIsEmpty` (t = 1) |
 | `waitAbove t` | `WaitIsAbove(t)` | `WaitSizeIsAbove(t)` |
 | `popOrWait` | – | `PopOrWait(waitCondition)`; the callback's answer is chosen by the environment |
-| `shutdown` | – | `SignalShutdown` (a `Broadcast` on "added" issued without the lock) |
+| `shutdown` | – | `SignalShutdown` (takes the lock, `Broadcast` on "added", releases — since the repair a0dbad3 of the PopOrWait gap; before it the broadcast was issued without the lock) |
 
 Only `Broadcast` is used on these conditions, so a condition variable is its broadcast generation
 (`genI`, `genD`): `Wait` records the generation while it still holds the lock (Go registers the waiter
@@ -94,14 +94,13 @@ def critStep (s : Mon) (t : WTh) (op : WOp) : List (Mon × WTh) :=
       [(s, { t with pc := .critW }),                                         -- waitCondition() = true
        ({ s with m := false }, { t with pc := .idle, res := false :: t.res })] -- waitCondition() = false
     else [({ s with m := false, value := s.value - 1 }, { t with pc := .bcD, res := true :: t.res })]
-  | .shutdown => [({ s with m := false }, { t with pc := .idle })]  -- not reachable: `shutdown` never takes the lock
+  | .shutdown => [({ s with m := false, genI := s.genI + 1 }, { t with pc := .idle })]
 
 def step (s : Mon) (t : WTh) : List (Mon × WTh) :=
   match t.pc with
   | .idle =>
     match t.script with
     | [] => []
-    | .shutdown :: rest => [(s, { t with pc := .bcI, script := rest })]
     | op :: rest => [(s, { t with pc := .acq op, script := rest })]
   | .acq op => if s.m then [] else [({ s with m := true }, { t with pc := .crit op })]
   | .crit op => critStep s t op
